@@ -30,8 +30,11 @@ Definition outer (u v : vec) : mat := map (fun ui => vscale ui v) u.
 Definition madd (A B : mat) : mat := zipw vadd A B.
 Definition mscale (c : Q) (A : mat) : mat := map (vscale c) A.
 Definition mzero (k : nat) : mat := repeat (vzero k) k.
-Definition unitv (k i : nat) (c : Q) : vec := map (fun j => if Nat.eqb i j then c else 0) (seq 0 k).
-Definition mscaleI (c : Q) (k : nat) : mat := map (fun i => unitv k i c) (seq 0 k).   (* c * I_k *)
+Fixpoint mscaleI (c : Q) (k : nat) : mat :=                                          (* c * I_k *)
+  match k with
+  | O => []
+  | S k' => (c :: vzero k') :: map (cons 0) (mscaleI c k')
+  end.
 Definition matvec (A : mat) (x : vec) : vec := map (fun r => dot r x) A.
 
 (* M^T M,  (M^T * w) M  and  M^T v  for M given as its list of rows *)
